@@ -322,7 +322,7 @@ func TestVerifC35Child(t *testing.T) {
 }
 
 func c35Jobs(r *verifkit.Run, rs gen.RuneSet) []c35Job {
-	n := r.N(4000, 120000)
+	n := r.N(4000, 80000)
 	jobs := make([]c35Job, 0, n)
 	idOrStr := map[int]bool{gen.ID: true, gen.STR: true}
 	for i := 0; i < n; i++ {
